@@ -30,6 +30,11 @@ def snapshot(env):
             [float(x) for x in env.state])
 
 
+def regen(ctx):
+    import registry_dump
+    registry_dump.regen_registry()
+
+
 def run(ctx, proof):
     rng = ctx.rng
     names = set(SOLVERS.keys())
